@@ -273,7 +273,7 @@ fn sublattice() -> Vec<i128> {
 pub fn run(rep: &mut Report) {
     let deep = !rep.quick();
     let q = false;
-    let dl = lattice::dl(if deep { 256 } else { 64 }, !q);
+    let dl = lattice::dl(if deep { 768 } else { 64 }, !q);
     let n = dl.len() as u64;
     rep.bound("DL_size", n);
     rep.rule = "all ordered pairs of the duration lattice under == != < <= > >= cmp partial_cmp min max; all triples of a zero-crossing / adjacent-century sub-lattice for transitivity; sort of the sub-lattice from 4 permutations; DL x 9 units; a+b>a on all pairs away from saturation; operands *produced by real operations* (neg, abs, double neg, +0, (a-a)+a, *1, *-1, /1) compared with the same count built directly and with its two neighbours. Oracle: the same relation on the i128 counts; `x == -x` within one century is a don't-care. Non-trivial = century fields differ by one, operands straddle zero, a+b = one century, or exact negations.".into();
